@@ -209,8 +209,11 @@ def beh_part(ctx, exe):
 
 
 # ------------------------------------------------------------------ 3. random histories, validated by TLC
-SECTS = [b"Main", b"main", b"MAIN", b"M", b"net", b"Net", b"s2", b"s", b"x" * 40, b"A.b c", b"Z"]
-NAMES = [b"key", b"Key", b"KEY", b"k", b"K", b"n", b"long_name_" * 4, b"a b", b"port", b"Port"]
+SECTS = [b"Main", b"main", b"MAIN", b"M", b"net", b"Net", b"s2", b"s", b"x" * 40, b"A.b c", b"Z", b"s@t", b"s`t"]
+# "It[0"/"It{0" and "a@b"/"a`b": octets next to 'A'..'Z' that differ from their neighbour by 32 exactly like a letter
+# from its lower case - a case fold whose range is off by one aliases them (seed C17-8)
+NAMES = [b"key", b"Key", b"KEY", b"k", b"K", b"n", b"long_name_" * 4, b"a b", b"port", b"Port", b"It[0", b"It{0", b"a@b", b"a`b"]
+FOLD_EDGE = [b"It[0", b"It{0", b"a@b", b"a`b"]
 
 
 def rnd_bytes(rng, n):
@@ -251,6 +254,8 @@ def rnd_script(rng, nops, big):
     # few keys per execution, so that the same entry is replaced many times
     sects = rng.sample(SECTS, rng.choice([1, 2, 3, 4]))
     names = rng.sample(NAMES, rng.choice([2, 3, 4]))
+    if rng.random() < 0.25:
+        names = list({*names, *(FOLD_EDGE[:2] if rng.random() < 0.5 else FOLD_EDGE[2:])})
     if rng.random() < 0.5:          # make sure letter-case variants of one name / section meet
         names = list({*names, *rng.sample([b"key", b"Key", b"KEY"], 2)})
         sects = list({*sects, *rng.sample([b"Main", b"main", b"MAIN", b"M"], 2)})
@@ -288,6 +293,26 @@ def rnd_script(rng, nops, big):
         else:
             ops.append(rng.choice(["N r -1", "N r 0", "N r 1", "N a 0", "N a 1", "N r -2", "N r -%d" % rng.randint(1, 60),
                                    "N a %d" % rng.randint(2, 200)]))
+    ops += ["E", "C", "RT", "N r 0", "N r -1"]
+    return ";".join(ops)
+
+
+def fold_edge_script():
+    """directed history: names / sections that differ only in an octet next to 'A'..'Z' ('@' 0x40 vs '`' 0x60, '[' 0x5B
+    vs '{' 0x7B - 32 apart like a letter and its lower case) live side by side with letter-case variants; every one is
+    set, looked up with and without case folding, replaced, and looked up again after generate + parse (seed C17-8)"""
+    ops = []
+    pairs = [(b"It[0", b"It{0"), (b"a@b", b"a`b"), (b"key", b"KEY")]
+    for s in (b"Main", b"s@t", b"s`t", b"MAIN"):
+        for a, b in pairs:
+            for n, v in ((a, b"1" + a), (b, b"2" + b)):
+                ops.append("S %s %s %s" % (s.hex(), n.hex(), (v + s).hex()))
+    for rnd in range(2):
+        for s in (b"Main", b"s@t", b"s`t", b"main", b"S@T", b"S`T"):
+            for a, b in pairs:
+                for n in (a, b, a.upper(), b.lower()):
+                    ops.append("GI %s %s" % (s.hex(), n.hex())); ops.append("G %s %s" % (s.hex(), n.hex()))
+        ops += ["E", "RT", "S %s %s %s" % (b"s`t".hex(), b"It{0".hex(), b"late".hex()), "S %s %s %s" % (b"s@t".hex(), b"It[0".hex(), b"later".hex())]
     ops += ["E", "C", "RT", "N r 0", "N r -1"]
     return ";".join(ops)
 
@@ -346,6 +371,7 @@ def trace_part(ctx, exes):
     for i in range(nexec):
         big = (i % 7 == 3)              # parse-heavy executions cross the 64/128-line reallocation of the line array
         scripts.append(rnd_script(rng, nops if not big else nops // 2, big))
+    scripts.insert(0, fold_edge_script())
     nrandom = len(scripts)
     growth = growth_scripts(rng, 130 if ctx.quick else 260)
     glabel = {nrandom + i: g[0] for i, g in enumerate(growth)}
@@ -424,6 +450,8 @@ def run(ctx):
     d = common.scratch()
     asan = common.cc(SRC, d + "/ini_asan", compiler="clang", san="asan", hooks=False)
     plain = common.cc(SRC, d + "/ini_plain", compiler="gcc", opt="-O2", hooks=False)
+    # mem_cmpi / mem_cmpin without strncasecmp(): the portable byte loop of mem_utils.h (platforms without HAVE_STRNCASECMP)
+    nocase = common.cc(SRC, d + "/ini_nostrncasecmp", compiler="gcc", opt="-O1", hooks=False, flags=["-UHAVE_STRNCASECMP"])
     # the model-checking runs (3 workers) go on beside the replay/trace runs (1-2 workers): <= 4-5 cores in total
     common.tlc_workspace()
     err = []
@@ -435,7 +463,7 @@ def run(ctx):
     th = threading.Thread(target=bg); th.start()
     try:
         beh_part(ctx, asan)
-        trace_part(ctx, [("clang-asan-ubsan", asan), ("gcc-O2", plain)])
+        trace_part(ctx, [("clang-asan-ubsan", asan), ("gcc-O2", plain), ("gcc-O1-no-strncasecmp", nocase)])
     finally:
         th.join()
     if err:
